@@ -1,0 +1,21 @@
+//go:build verif && amd64
+// +build verif,amd64
+
+package gf2p16
+
+// Verification-only seam: lets a test harness route MulByteSliceLE and
+// MulAndAddByteSliceLE to the portable Go kernels instead of the
+// assembly ones, so that the race detector sees every memory access
+// they make. Compiled only with -tags verif; the shipped behaviour is
+// unchanged.
+
+var verifPortable bool
+
+// VerifSetPortable switches between the portable kernels (true) and
+// the assembly kernels (false) and returns the previous setting. It
+// must not be called while kernels are running.
+func VerifSetPortable(on bool) bool {
+	old := verifPortable
+	verifPortable = on
+	return old
+}
